@@ -66,6 +66,11 @@ class U:
         self.rtiming = {v: k for k, v in self.timing.items()}
         self.riv = {v: k for k, v in self.iv.items()}
         self.Int_ = Int
+        # every constant node the edits use exists before the worker processes are forked, so that the
+        # hashes of the universe's actions (sums of node ids) do not depend on the scheduling of the pool
+        from unified_planning.shortcuts import FALSE
+
+        self.consts = [Int(i) for i in range(0, 11)] + [TRUE(), FALSE()]
 
     def value(self, f, k, v):
         if k != "asg":
@@ -791,6 +796,7 @@ def run(ctx):
                 add(cls, h, "gen", rng.choice([1, 2]), P)
             else:
                 add(cls, h, "hand", rng.choice([1, 2]))
+        universe()
         with get_context("fork").Pool(14, maxtasksperchild=400) as pool:
             traces = pool.map(worker, jobs, chunksize=16)
         skipped = {}
